@@ -1137,6 +1137,75 @@ def rule_process_settings(rep, repo):
             qe.imports.get("cfg"))
 
 
+def rule_op_table(rep, repo):
+  """R12: the operator cost table as the module builds it (module-level code
+  interpreted, the configuration object a stand-in whose polynomials are
+  symbols): every OP[family][operation] called on a symbolic bit count is
+  max(p(bits), 0) with p a polynomial OF THAT FAMILY (`<family>_...`), a
+  multiplier entry priced with the family's `_mul` polynomial and an adder
+  entry with its `_add` polynomial; the five families the energy model
+  looks up are present with their multiply / add (read / write) entries."""
+  qe = repo.module(QE)
+  unit = "%s::OP" % qe.relpath
+  rep.unit(unit)
+  loc = qe.loc(qe.assigns["OP"]) if "OP" in qe.assigns else None
+
+  def poly(name):
+    return lambda pe, a, k: Tensor(("app", name, (), (pe.as_term(a[0]),)),
+                                   ())
+  cfgm = Mock("cfg", dict([(n_, poly(n_)) for n_ in PROCESS_COSTS] + [
+      ("sram_mul_factor", S("sram_mf")), ("dram_mul_factor", S("dram_mf"))]))
+  pe = PE(repo, module_overrides={QE: {"cfg": cfgm}})
+  pe.opaque_ext = True
+  try:
+    table = pe.lookup_global("OP", qe)
+  except (PyRaise, Unsupported) as e:
+    rep.fail("R12", unit, "table-not-built", "building OP raises %s" % e,
+             loc=loc)
+    return
+  if not isinstance(table, dict):
+    raise AnalysisError("unsupported-construct OP is %r" % (table,))
+  need = {"fp32": ("add", "mul"), "fp16": ("add", "mul"),
+          "fpm": ("add", "mul"), "sram": ("rd", "wr", "mul_factor"),
+          "dram": ("rd", "wr", "mul_factor")}
+  fw = Fwd()
+  for fam, ops in sorted(need.items()):
+    ent = table.get(fam)
+    missing = [o for o in ops if not isinstance(ent, dict) or o not in ent]
+    rep.check(not missing, "R12", unit, "entry-missing:%s" % fam,
+              "OP[%r] lacks %s" % (fam, missing), loc=loc)
+  for fam, ent in sorted(table.items()):
+    if not isinstance(ent, dict):
+      continue
+    for opn, f in sorted(ent.items()):
+      if opn == "mul_factor":
+        continue       # a number of the configuration (decided by R9)
+      try:
+        r = pe.call(f, [S("nbits")], {})
+      except (PyRaise, Unsupported) as e:
+        rep.fail("R12", unit, "cost-raises:%s.%s" % (fam, opn),
+                 "OP[%r][%r](bits) raises %s" % (fam, opn, e), loc=loc)
+        continue
+      got = fw(r.term) if isinstance(r, Tensor) else None
+      at = got.single_atom() if got is not None else None
+      inner = None
+      if at is not None and at[0] == "app" and at[1] == "maximum":
+        args = [a for a in at[3] if isinstance(a, NF)]
+        rest = [a for a in args if not a.is_zero()]
+        if len(args) == 2 and len(rest) == 1:
+          ia = rest[0].single_atom()
+          if ia is not None and ia[0] == "app" and ia[3] == (N("nbits"),):
+            inner = ia[1]
+      want_suffix = {"mul": "_mul", "rd": "_rd", "wr": "_rd"}.get(opn,
+                                                                  "_add")
+      ok = inner is not None and inner.startswith(fam + "_") and \
+          inner.endswith(want_suffix)
+      rep.check(ok, "R12", unit, "cost-of-another-family:%s.%s" % (fam, opn),
+                "OP[%r][%r](bits) = %s; expected max(cfg.%s*%s(bits), 0)" %
+                (fam, opn, show(got) if got is not None else r, fam + "_",
+                 want_suffix), loc=loc)
+
+
 def rule_qtools_wiring(rep, repo):
   """R10: QTools.__init__ and QTools.pe interpreted with the sub-systems as
   recording stand-ins: the selected process is applied to the configuration
@@ -1322,6 +1391,8 @@ def run(rep, repo, tier):
   rep.require_instances("R10", 6)
   rule_count_input(rep, repo)
   rep.require_instances("R11", 20)
+  rule_op_table(rep, repo)
+  rep.require_instances("R12", 16)
   rep.require_instances("R9", 15)
   rep.require_instances("R7", 18)
   rep.require_instances("R6", 36)
